@@ -88,7 +88,7 @@ let run_d cap ops =
       (string_of_n (n_reserved !st.tb)) (string_of_n (n_present_handles !st))))
     (split_on ',' ops);
   let body = String.trim (Buffer.contents buf) in
-  Printf.sprintf "%s| ev=%s" body (if Buffer.length ev = 0 then "-" else Buffer.contents ev)
+  Printf.sprintf "%s | ev=%s" body (if Buffer.length ev = 0 then "-" else Buffer.contents ev)
 
 (* ---- V / W ---- *)
 let slot_no = function RvIdle -> 0 | RvRequested _ -> 1 | RvInFlight _ -> 2 | RvResolved _ -> 3
@@ -126,7 +126,7 @@ let run_v ops =
     Buffer.add_string buf (Printf.sprintf "%s>%d " res (slot_no !s.r_slot)))
     (split_on ',' ops);
   List.iter (fun r -> s := fst (rstep !s (RCancel r.rq_id))) !s.r_reqs;
-  Printf.sprintf "%s| end=%d" (String.trim (Buffer.contents buf)) (slot_no !s.r_slot)
+  Printf.sprintf "%s | end=%d" (String.trim (Buffer.contents buf)) (slot_no !s.r_slot)
 
 (* ---- E ---- *)
 let field fields k =
